@@ -51,19 +51,53 @@ def pyTake (s : Str) (n : Int) : Str :=
 /-- `f'{self.prefix}/' if self.prefix else ''` -/
 def pre (p : Str) : Str := if p.isEmpty then [] else p ++ ['/']
 
+/-- `_is_alnum` of `make_edged_name`: `c.isascii() and c.isalnum()` — `[A-Za-z0-9]` only
+    (`Char.isAlphanum` is ASCII-only: `é`, `١` are not alphanumeric here, as in the code). -/
+def isAlnum (c : Char) : Bool := c.isAlphanum
+
+/-- `name and _is_alnum(name[0])` -/
+def headAlnum : Str → Bool
+  | [] => false
+  | c :: _ => isAlnum c
+
+/-- `name and _is_alnum(name[-1])` -/
+def lastAlnum (s : Str) : Bool :=
+  match s.getLast? with
+  | none => false
+  | some c => isAlnum c
+
+/-- `make_edged_name(name, key=key, max_length=maxLen)` (kopf c2cffd8), statement by statement:
+    a name that begins and ends with an ASCII alphanumeric is returned untouched; otherwise the
+    empty name becomes `x`, a bad first / last character is replaced by `x`
+    (`f'x{name[1:]}'`, `f'{name[:-1]}x'`), and — unless the name already ends with the hash suffix
+    of the id or of the id's safe form ("already cut & hashed") — it is cut to
+    `max(1, max_length - len(suffix))` characters and the suffix of the ORIGINAL id is appended.
+    `maxLen` is an `Int`: `make_v1_key` passes `max_length - len(prefix)`, which is not bounded below. -/
+def edgedName (sfx : Str → Str) (name key : Str) (maxLen : Int) : Str :=
+  if headAlnum name && lastAlnum name then name else
+  let n0 := if name.isEmpty then ['x'] else name
+  let n1 := if headAlnum n0 then n0 else 'x' :: n0.tail
+  let n2 := if lastAlnum n1 then n1 else n1.dropLast ++ ['x']
+  let suffix := sfx key
+  if suffix.isSuffixOf n2 || (sfx (safeKey key)).isSuffixOf n2 then n2
+  else n2.take (max 1 (maxLen - (suffix.length : Int))).toNat ++ suffix
+
 /-- `make_v1_key` (max_length = 63): the 63 characters are counted over prefix + '/' + name, the
     suffix is the hash of the *safe* key; the cut `63 - len(prefix) - len(suffix)` is a Python
-    slice bound and may be zero or negative. -/
+    slice bound and may be zero or negative. Since c2cffd8 the name part goes through
+    `make_edged_name(name, key=key, max_length=63 - len(prefix))`. -/
 def v1Key (p : Str) (sfx : Str → Str) (k : Str) : Str :=
   let safe := safeKey k
   let suffix := if (safe.length : Int) ≤ 63 - ((pre p).length : Int) then [] else sfx safe
-  pre p ++ pyTake safe (63 - ((pre p).length : Int) - (suffix.length : Int)) ++ suffix
+  pre p ++ edgedName sfx (pyTake safe (63 - ((pre p).length : Int) - (suffix.length : Int)) ++ suffix) k
+    (63 - ((pre p).length : Int))
 
 /-- `make_v2_key` (max_length = 63): only the name part is limited; the suffix is the hash of the
-    *original* key; `key_limit = max(0, 63 - len(suffix))` is truncated subtraction. -/
+    *original* key; `key_limit = max(0, 63 - len(suffix))` is truncated subtraction. Since c2cffd8
+    the name part goes through `make_edged_name(name, key=key, max_length=63)`. -/
 def v2Key (p : Str) (sfx : Str → Str) (k : Str) : Str :=
   let suffix := if k.length > 63 then sfx k else []
-  pre p ++ (safeKey k).take (63 - suffix.length) ++ suffix
+  pre p ++ edgedName sfx ((safeKey k).take (63 - suffix.length) ++ suffix) k 63
 
 /-- `v1_fits = len(f'{self.prefix}/') + len(self.make_suffix('')) < 63` (since e916847): the V1
     scheme counts the prefix into the 63 characters; with a prefix of 55+ characters there is no
